@@ -39,6 +39,11 @@ class ModelOracle(Oracle):
         model = world.h[h].model
         world.sim.oracle(tag)
         diffs = compare.diff_trees(model.recs, other, "MODEL", label, fields=fields, skip_attrs=RAW_SKIP_ATTRS)
+        if not diffs and label == "LIVE":
+            stale = sorted(u for u, r in other.items() if "pg_children" in r)
+            if stale:
+                raise Violation(self.prop, "state_differs", f"LIVE: {stale[0]} lists property groups {other[stale[0]]['pg_children']} among its children, its property "
+                                f"groups are {sorted(other[stale[0]].get('pgs', {}))}", {"field": "children_pgs", "kind": "object", "cls": other[stale[0]].get("cls"), "view": "LIVE"})
         if diffs:
             first = diffs[0]
             kind = "?"
